@@ -407,9 +407,10 @@ class Interp(object):
     def st_If(self, st, fr):
         test = self.ev(st.test, fr)
         tv = truthiness(test)
-        if tv is None and self.branch_oracle is not None:
-            tv = self.branch_oracle(fr, st)
-            if tv is not None:
+        if (tv is None or getattr(self, "oracle_first", False)) and self.branch_oracle is not None:
+            ov = self.branch_oracle(fr, st)
+            if ov is not None:
+                tv = ov
                 self.emit("assumed-branch", fr, st, taken=tv)
         self.emit("branch", fr, st, test=test, folded=tv)
         if tv is True:
